@@ -573,7 +573,11 @@ MUTANTS = [
      "edits": [(FWD, "\n    // update sleep indices\n    mj_updateSleep(m, d);\n  }\n\n  // advance velocities", "\n  }\n\n  // advance velocities")]},
     {"id": "sleep-after-integration", "expect": ("R-SLEEP-REEVAL", "mj_advance"),
      "edits": [(FWD, "  // put islands to sleep according to velocity tolerance\n  if (mj_sleep(m, d)) {", "  if (0) {")]},
+    {"id": "equality-wake-reads-compiled-default", "expect": ("R-RUNTIME-STATE", "mj_wakeEquality:initial-value-reads"),
+     "edits": [(SLEEP, "    if (!d->eq_active[i]) continue;", "    if (!m->eq_active0[i]) continue;")]},
     # controls
+    {"id": "ctl-equality-wake-flag-in-local", "expect": None,
+     "edits": [(SLEEP, "    if (!d->eq_active[i]) continue;", "    const mjtByte* active = d->eq_active;\n    if (!active[i]) continue;")]},
     {"id": "ctl-rename-local", "expect": None,
      "edits": [(FWD, "  // advance velocities\n  int sleep_filter = mjENABLED(mjENBL_SLEEP) && d->ntree_awake < m->ntree;\n  if (sleep_filter) {",
                 "  // advance velocities\n  int filt = mjENABLED(mjENBL_SLEEP) && d->ntree_awake < m->ntree;\n  int sleep_filter = filt;\n  if (filt) {")]},
